@@ -24,7 +24,7 @@ META = {
 LEVEL = META['level']
 RULE = ('a case = one request frame of a recorded session paired with its reply; distinct by (session script, position); non-trivial = the session had depth >= 2 or mixed failing and succeeding requests')
 ASSUMPTIONS = ['after a reply with non-zero encapsulation status, or Unregister, nothing further is owed on that session']
-REQUIRED = ['session:half-closed-after-burst', 'handle:other-than-registered', 'sessions', 'requests', 'depth:1', 'depth:2', 'depth:8', 'depth:64', 'depth:400', 'kind:register', 'kind:list_services', 'kind:list_identity', 'kind:list_interfaces',
+REQUIRED = ['kind:connection-manager', 'session:half-closed-after-burst', 'handle:other-than-registered', 'sessions', 'requests', 'depth:1', 'depth:2', 'depth:8', 'depth:64', 'depth:400', 'kind:register', 'kind:list_services', 'kind:list_identity', 'kind:list_interfaces',
             'kind:legacy', 'kind:read', 'kind:write', 'kind:cip-failing', 'kind:bundle', 'kind:attribute', 'end:unregister', 'end:unsupported-service', 'end:unroutable',
             'context:all-zero', 'context:embedded-nul', 'monitor:paired', 'server-blocked-in-send']
 TIMEOUT = {'quick': 300, 'thorough': 2400}
@@ -35,6 +35,33 @@ CFG = [('A', 'DINT', 200, None), ('B', 'INT', 10, '0x93/1/2'), ('S', 'SSTRING', 
 
 def shards(tier):
     return 2 if tier == 'quick' else 8
+
+
+def cm_steps(rng, which):
+    """Connection Manager services: a Forward Open the simulator accepts, one it has to refuse (connection size 0, or the
+    originator's O->T connection id of a non-point-to-point connection used twice), Forward Close -- supported services all,
+    so even a refusal is a reply with the reply bit set"""
+    from vlib import refcodec as rc
+    serial = rng.randrange(65536)
+
+    def fo(size=500, ot_type=2, ot_id=0, large=False, serial=serial):
+        return rc.enc_request({'path': {'segment': [{'class': 6}, {'instance': 1}]},
+                               'forward_open': {'priority_time_tick': 10, 'timeout_ticks': 5,
+                                                'O_T': {'size': size, 'type': ot_type, 'priority': 0, 'variable': 1, 'redundant': 0, 'RPI': 2000000, 'connection_ID': ot_id, 'large': large},
+                                                'T_O': {'size': size, 'type': 2, 'priority': 0, 'variable': 1, 'redundant': 0, 'RPI': 2000000, 'connection_ID': rng.randrange(1, 2**32), 'large': large},
+                                                'connection_serial': serial, 'O_vendor': 0x4321, 'O_serial': 77, 'connection_timeout_multiplier': 0,
+                                                'transport_class_triggers': 0xA3, 'connection_path': {'segment': [{'port': 1, 'link': 0}, {'class': 2}, {'instance': 1}]}}})
+    if which == 'open':
+        cips = [(fo(), 0xD4)]
+    elif which == 'open-size0':
+        cips = [(fo(size=0), 0xD4)]
+    elif which == 'open-twice':
+        cips = [(fo(ot_type=1, ot_id=0x55), 0xD4), (fo(ot_type=1, ot_id=0x55, serial=(serial + 1) % 65536), 0xD4)]
+    else:
+        cips = [(rc.enc_request({'path': {'segment': [{'class': 6}, {'instance': 1}]},
+                                 'forward_close': {'priority_time_tick': 10, 'timeout_ticks': 5, 'connection_serial': serial, 'O_vendor': 0x4321, 'O_serial': 77,
+                                                   'connection_path': {'segment': [{'port': 1, 'link': 0}, {'class': 2}, {'instance': 1}]}}}), 0xCE)]
+    return [('connection-manager', (lambda s, c, cip=cip: rc.rr_frame(cip, s, c)), {'command': 0x6F, 'service': rsvc}) for cip, rsvc in cips]
 
 
 def gen_session(rng, depth_target, heavy=False):
@@ -62,6 +89,8 @@ def gen_session(rng, depth_target, heavy=False):
         elif r < 0.2:
             h = rng.choice([None, None, 0, rng.randrange(1, 2**32)])       # these commands need no session: the reply must echo whatever handle the request carried
             steps.append(('legacy', (lambda s, c, h=h: rc.enc_frame(0x01, b'', session=(s if h is None else h), context=c)), {'command': 0x01, 'handle': h}))
+        elif r < 0.26 and depth_target < 64:
+            steps.extend(cm_steps(rng, rng.choice(['open', 'open-size0', 'open-twice', 'close'])))
         elif r < 0.32:
             k = rng.choice([1, 2, 5, 20])
             members = [reqgen.gen_request(rng, CFG, p_invalid=0.3, allow_unknown=False)[1] for _ in range(k)]
@@ -78,8 +107,13 @@ def gen_session(rng, depth_target, heavy=False):
             build = (lambda s, c, cip=cip, wrap=wrap: rc.rr_frame(rc.enc_unconnected_send(cip) if wrap else cip, s, c))
             steps.append((kind, build, {'command': 0x6F, 'service': cip[0] | 0x80}))
     gen_session.counter = getattr(gen_session, 'counter', 0) + 1
+    if depth_target < 64:
+        # every kind of Connection Manager exchange occurs, deterministically
+        extra = cm_steps(rng, ['open', 'open-size0', 'open-twice', 'close'][gen_session.counter % 4])
+        at = rng.randrange(len(steps) + 1)
+        steps[at:at] = extra
     end = ['none', 'unsupported-service', 'unregister', 'unroutable', 'none'][gen_session.counter % 5]     # every ending occurs, deterministically
-    if depth_target < 64 and gen_session.counter % 3 == 2:
+    if depth_target < 64 and gen_session.counter % 2 == 0:
         end = 'none'            # ... and 'none' also occurs at the small depths (these sessions are half-closed right after the burst)
     if end == 'unregister':
         steps.append(('end:unregister', lambda s, c: rc.enc_frame(0x66, b'', session=s, context=c), {'no_reply': True}))
@@ -146,9 +180,16 @@ def run_session(ctx, sim, rng, depth):
         stream = b''.join(f for _, f, _, _ in sent)
         blocked = {'n': 0}
 
+        half_close = depth < 64 and not any(k_.startswith('end:') for k_, _, _, _ in sent)
+
         def writer():
             try:
                 sock.sendall(stream)
+                if half_close:
+                    # the documented clean shutdown of a client: close the sending side right after the last request, then harvest the
+                    # replies; the end-of-stream may reach the server together with the burst, and every complete request is still owed
+                    # its reply
+                    sock.shutdown(socket.SHUT_WR)
             except OSError:
                 pass
         th = threading.Thread(target=writer, daemon=True)
@@ -174,14 +215,8 @@ def run_session(ctx, sim, rng, depth):
                 ctx.count('server-blocked-in-send')
         if th.is_alive():
             ctx.count('writer-blocked-too')
-        elif depth < 64 and not any(k_.startswith('end:') for k_, _, _, _ in sent):
-            # the documented clean shutdown of a client: close the sending side right after the last request, then harvest the replies;
-            # the end-of-stream may reach the server together with the burst, and every complete request is still owed its reply
-            try:
-                sock.shutdown(socket.SHUT_WR)
-                ctx.count('session:half-closed-after-burst')
-            except OSError:
-                pass
+        if half_close:
+            ctx.count('session:half-closed-after-burst')
         # now read everything
         got = []
         owed = sum(1 for _, _, _, e in sent if not e.get('no_reply'))
